@@ -183,10 +183,11 @@ theorem sarif_string_roundtrip (s rest : Str) : jsonStrDecode ((jsonStr s).drop 
 /-- **Text = simultaneous substitution** (partial: the full statement is refuted below).
     For every finding, every message template `tf` and location template `tl` that tokenize (`parseTemplate`: no
     '{' inside a marker, no unterminated marker), if no substituted field value contains a '{', the text
-    `ErrorMessage::toString` produces is the one simultaneous substitution of the documented fields. -/
-theorem render_eq_spec_partial (src : Loc → Str) (f : Finding) (verbose : Bool) (tf tl : Str) (segsF segsL : List Seg)
+    `ErrorMessage::toString` returns (`some`) and produces the one simultaneous substitution of the documented fields
+    (`brk`: with or without the `pos2 == npos` guard in the `{inconclusive:` loop — see `render_hang_counterexample`). -/
+theorem render_eq_spec_partial (brk : Bool) (src : Loc → Str) (f : Finding) (verbose : Bool) (tf tl : Str) (segsF segsL : List Seg)
     (hF : parseTemplate tf = some segsF) (hL : parseTemplate tl = some segsL) (hv : valuesOK f verbose = true) :
-    toString src f verbose tf tl = Spec.render src f verbose segsF segsL := by
+    toString brk src f verbose tf tl = some (Spec.render src f verbose segsF segsL) := by
   obtain ⟨wF, eF⟩ := parseTemplate_spec tf segsF hF
   obtain ⟨wL, eL⟩ := parseTemplate_spec tl segsL hL
   unfold valuesOK fieldValues at hv
@@ -199,7 +200,7 @@ theorem render_eq_spec_partial (src : Loc → Str) (f : Finding) (verbose : Bool
   have hV : ValuesOK f verbose :=
     { id := h0 _ (by simp), cls := h0 _ (by simp), msg := h0 _ (by simp), remark := h0 _ (by simp), files := hfiles }
   rw [← eF, ← eL]
-  exact toString_eq_spec src f verbose segsF segsL wF wL hV (fun _ => ⟨hfiles, hinfos⟩)
+  exact toString_eq_spec brk src f verbose segsF segsL wF wL hV (fun _ => ⟨hfiles, hinfos⟩)
 
 /-- the hypotheses are satisfiable by a non-trivial case: the `gcc`-like template with a two-location finding -/
 example : ∃ segsF segsL,
@@ -216,16 +217,24 @@ def f10Witness : Finding :=
 
 /-- **F10** — the full statement is false of the code: the passes are sequential, so a `{line}` inside the message
     is rewritten by the later `{line}` pass (`#error see {line}` with `--template={message}` prints `#error see 3`). -/
-theorem render_injection_counterexample :
+theorem render_injection_counterexample (brk : Bool) :
     ¬ ∀ (f : Finding) (tf : Str) (segs : List Seg), parseTemplate tf = some segs →
-        toString (fun _ => []) f false tf [] = Spec.render (fun _ => []) f false segs [] := by
+        toString brk (fun _ => []) f false tf [] = some (Spec.render (fun _ => []) f false segs []) := by
   intro h
   have := h f10Witness "{message}".toList [.mk "message".toList] (by decide)
   revert this
-  decide
+  cases brk <;> decide
 
 /-- what the code prints / what the documented meaning is, for the witness -/
-example : toString (fun _ => []) f10Witness false "{message}".toList [] = "#error see 3".toList := by decide
+example : toString false (fun _ => []) f10Witness false "{message}".toList [] = some "#error see 3".toList := by decide
+
+/-- **F26f** — a template that does not tokenize can keep `toString` from returning: without the `pos2 == npos` guard an
+    unterminated `{inconclusive:` at offset 0 makes the search string empty (`npos - 0 + 1` wraps to 0) and
+    `findAndReplace(result, "", "")` never advances; with the guard the text is left as written. -/
+theorem render_hang_counterexample :
+    toString false (fun _ => []) f10Witness false "{inconclusive:".toList [] = none ∧
+    toString true (fun _ => []) f10Witness false "{inconclusive:".toList [] = some "{inconclusive:".toList ∧
+    parseTemplate "{inconclusive:".toList = none := by decide
 example : Spec.render (fun _ => []) f10Witness false [.mk "message".toList] [] = "#error see {line}".toList := by decide
 
 /-! ## each finding once (`StdLogger::reportErr`) -/
@@ -250,14 +259,14 @@ theorem stdLogger_all_partial (render : Finding → Str) (fs : List Finding)
 
 example : (([{ id := "a".toList, severity := 1, shortMsg := "x".toList, verboseMsg := "x".toList },
              { id := "b".toList, severity := 2, shortMsg := "y".toList, verboseMsg := "y".toList }] : List Finding).filter
-            (fun f => f.severity ≠ 8)).map (fun f => toString (fun _ => []) f false "{id}:{message}".toList []) |>.Nodup := by
+            (fun f => f.severity ≠ 8)).map (fun f => (toString true (fun _ => []) f false "{id}:{message}".toList []).getD []) |>.Nodup := by
   decide +kernel
 
 /-- the filter key is the *text*: two findings that differ only in a field the template does not show (here the CWE
     number under `{file}:{line}: {message} [{id}]`) reach the XML / SARIF writer as one -/
 theorem xml_dedup_by_text_counterexample :
     ∃ f g : Finding, f ≠ g ∧ toXML f ≠ toXML g ∧
-      stdLogger (fun x => toString (fun _ => []) x false "{file}:{line}: {message} [{id}]".toList []) [f, g] = [f] := by
+      stdLogger (fun x => (toString true (fun _ => []) x false "{file}:{line}: {message} [{id}]".toList []).getD []) [f, g] = [f] := by
   refine ⟨{ id := "a".toList, severity := 1, cwe := 1, shortMsg := "m".toList, verboseMsg := "m".toList },
           { id := "a".toList, severity := 1, cwe := 2, shortMsg := "m".toList, verboseMsg := "m".toList }, ?_, ?_, ?_⟩ <;> decide
 
